@@ -78,14 +78,12 @@ Definition ex_sc : cfgT := mkcfg false true true true true false true false 0 16
 
 (* ---- "permitted operations only" (for honest_never_fatal) ------------------------------------- *)
 (* operations of the property's alphabet issued through the public API by well-behaved
-   endpoints: no injected records, no lying PHA client, CertificateRequests with a well-formed
-   compress_certificate list, positive record sizes *)
+   endpoints: no injected records, no lying / replaying PHA client *)
 Definition honest_op (o : op) : bool :=
   match o with
   | OInject _ => false
   | OReplayPha => false
   | OSetDev d => d =? 0
-  | ORequestAuth wf => wf
   | _ => true
   end.
 
